@@ -178,6 +178,11 @@ class Conv:
         """`k++, q += n` as separate statements"""
         from .gomodel import N
 
+        if p.k == "block":
+            out_: List[Node] = []
+            for q_ in p.stmts:
+                out_.extend(self._split_post(q_))
+            return out_
         if p.k == "exprstmt":
             return self._split_post(p.x)
         if p.k == "paren":
